@@ -316,7 +316,7 @@ impl Model {
                 }
             }
             Op::OnStatus { code, form, .. } => {
-                if *form != 0 || code.is_none() {
+                if (*form != 0 && *form != 4) || code.is_none() {
                     want_ok = false; // malformed status arguments
                 } else {
                     match code.as_deref().unwrap() {
